@@ -187,11 +187,16 @@ Fixpoint dec_env (l : list val) : option (list (nat * listing)) :=
       opt_bind (dec_listing ls) (fun x => opt_bind (dec_env l') (fun r => Some ((nat_of h, x) :: r)))
   | _ => None
   end.
-Fixpoint dec_hist (l : list val) : option (list (Z * list (nat * listing))) :=
+(* a history entry is (t, env) -- the callback -- or (t, env, raw): the harness itself calls _step(t)
+   on the registered nodes raw[j] mod (number of nodes), in that order (exercises the recursion) *)
+Fixpoint dec_hist (l : list val) : option (list (Z * list (nat * listing) * option (list Z))) :=
   match l with
   | [] => Some []
   | VTup [VInt t; VList e] :: l' =>
-      opt_bind (dec_env e) (fun x => opt_bind (dec_hist l') (fun r => Some ((t, x) :: r)))
+      opt_bind (dec_env e) (fun x => opt_bind (dec_hist l') (fun r => Some ((t, x, None) :: r)))
+  | VTup [VInt t; VList e; VList raw] :: l' =>
+      opt_bind (dec_env e) (fun x => opt_bind (all_Z raw) (fun o =>
+        opt_bind (dec_hist l') (fun r => Some ((t, x, Some o) :: r))))
   | _ => None
   end.
 
@@ -294,12 +299,19 @@ Definition env_of (hs : list nat) (e : list (nat * listing)) : nat -> listing :=
            | None => []
            end.
 
-Fixpoint run_ticks (g : graph) (hs sinks : list nat) (h : list (Z * list (nat * listing)))
-         (st : state) : list val :=
+Definition do_tick (g : graph) (env : nat -> listing) (t : Z) (o : option (list Z)) (st : state)
+  : option state :=
+  match o with
+  | None => tick g env t st
+  | Some raw => step_all g env t (map (fun x => Z.to_nat (x mod Z.of_nat (length g))) raw) st
+  end.
+
+Fixpoint run_ticks (g : graph) (hs sinks : list nat)
+         (h : list (Z * list (nat * listing) * option (list Z))) (st : state) : list val :=
   match h with
   | [] => []
-  | (t, e) :: h' =>
-      match tick g (env_of hs e) t (mkSt (ns st) []) with
+  | (t, e, o) :: h' =>
+      match do_tick g (env_of hs e) t o (mkSt (ns st) []) with
       | Some st' => VTup [obs_events g sinks (log st'); obs_states st'] :: run_ticks g hs sinks h' st'
       | None => [VFuel]
       end
